@@ -231,8 +231,11 @@ func Cmp(ei, ej Object) int {
 	case STRING:
 		return cmp.Compare(ei.(String).Value, ej.(String).Value)
 
-	// RETURN, QUOTE, MACRO, ANY aren't expected to be compared.
-	case RETURN, QUOTE, MACRO, UNKNOWN, ANY:
+	case QUOTE, MACRO:
+		// quote(..) values can be compared by programs (e.g. quote(1)==quote(1)): order by printed form.
+		return cmp.Compare(ei.Inspect(), ej.Inspect())
+	// RETURN, ANY aren't expected to be compared.
+	case RETURN, UNKNOWN, ANY:
 		panic(fmt.Sprintf("Unexpected type in Cmp: %s", ti))
 	}
 	return 1
